@@ -625,7 +625,69 @@ func rulePairs(c *core.Ctx) {
 		}
 		d := compareShapes(rs, ws, true)
 		c.Check(d == "", rule, key, p.r.Pos(), shapeString(flatten(rs)), core.FuncKey(p.r)+" and "+core.FuncKey(p.w)+" disagree: "+d)
+		// the reflection codec (proxies) walks a struct in declaration order: the generated
+		// writer, which follows the signature, must write the fields in that same order, or
+		// the two codecs of one type disagree on the wire
+		if d == "" {
+			if bad := fieldsInDeclarationOrder(p.w, flatten(ws)); bad != "" {
+				c.Fail(rule, key+"/field-order", p.w.Pos(), core.FuncKey(p.w)+" writes the fields of its struct in an order that is not the order of their declaration ("+bad+"): the reflection-based encoder and decoder, which proxies use for the same type, walk the declaration order, so the two serializers of this type produce different bytes")
+			} else {
+				c.Pass(rule, key+"/field-order", p.w.Pos(), "fields written in declaration order (the order the reflection codec walks)")
+			}
+		}
 	}
+}
+
+// fieldsInDeclarationOrder: the top-level fields the writer w emits (in order,
+// first occurrence of each) are the fields of its struct parameter in
+// declaration order.  "" if so, or if w does not write a struct.
+func fieldsInDeclarationOrder(w *ssa.Function, toks []tok) string {
+	var st *types.Struct
+	for _, p := range w.Params {
+		t := p.Type()
+		if pt, ok := t.(*types.Pointer); ok {
+			t = pt.Elem()
+		}
+		if s, ok := t.Underlying().(*types.Struct); ok {
+			if _, named := t.(*types.Named); named {
+				st = s
+			}
+		}
+	}
+	if st == nil {
+		return ""
+	}
+	var written []string
+	seen := map[string]bool{}
+	var walk func(ts []tok)
+	walk = func(ts []tok) {
+		for _, t := range ts {
+			if t.Field != "" && !seen[t.Field] {
+				seen[t.Field] = true
+				written = append(written, t.Field)
+			}
+			walk(t.Kids)
+			for _, a := range t.Arms {
+				walk(a)
+			}
+		}
+	}
+	walk(toks)
+	var declared []string
+	for i := 0; i < st.NumFields(); i++ {
+		if seen[st.Field(i).Name()] {
+			declared = append(declared, st.Field(i).Name())
+		}
+	}
+	if len(declared) < 2 || len(declared) != len(written) {
+		return ""
+	}
+	for i := range declared {
+		if declared[i] != written[i] {
+			return "written " + strings.Join(written, ", ") + "; declared " + strings.Join(declared, ", ")
+		}
+	}
+	return ""
 }
 
 // ruleReaderConstruction: the composite Type.Reader() methods build their
